@@ -104,6 +104,19 @@ CLAIMED = {
               "layers are not generated; cell centres are checked through the depth only."),
         technique="TLA+ state machine checked with TLC + trace validation of the real EclipseGrid under operation sequences",
     ),
+    "C11": dict(
+        category="model_checking",
+        text=("Serialization.tla: the pack / unpack protocol (size pass, pack pass, unpack pass, pack pass of the unpacked object) over "
+              "values with data-dependent containers, model-checked for exact buffer use.  Trace_Serialization validates the logged "
+              "primitive fields (kind, bytes, content digest) of the four passes of real objects: the first three passes agree "
+              "field by field, bytes packed = consumed = re-packed, the unpacked object compares equal, answers the public queries "
+              "identically and re-packs to the same multiset of fields.  Objects from TLC-generated models (StateFeatures.tla: 27 "
+              "keyword families with prerequisites x table dimensions; Schedule.tla), shipped decks, and dynamic state with random contents."),
+        design_ref="DESIGN.md section 5, C11",
+        note=("Trusted: TLC; the logging packer (a Packer policy of the library's own Serializer template); deck templates.  Grid and field "
+              "properties are not compared (documented as distributed separately); the parallel (MPI) packer is not used."),
+        technique="TLC model checking of the protocol + TLC trace validation of field logs recorded from the real Serializer on TLC-generated models",
+    ),
     "C12": dict(
         category="model_checking",
         text=("Oracle_FieldProps.tla is an explicit reference interpreter of the keyword operations over arrays on all "
